@@ -148,8 +148,12 @@ PixelClass(e, px, py) ==
   IN IF amb THEN 0 ELSE IF \E k \in Drawn(e) : Visible(e.tris[k], DOf(e.tris[k], r)) THEN 1 ELSE 2
 Judged(e, c) == Cardinality({p \in VpPixels(e) : PixelClass(e, p[1], p[2]) = c})
 
+\* e.win: the targets were the buffers themselves (0), windows of larger parent buffers (1) or windows
+\* of windows (2); e.outw counts the parent cells outside the window that lost their sentinel: a
+\* target is a window onto storage it does not own beyond its bounds
 ImageAllowed(e) ==
   /\ e.panic = 0
+  /\ e.outw = 0
   /\ OutsideKept(e)
   /\ \A p \in VpPixels(e) : PixelOK(e, p[1], p[2])
 
@@ -167,6 +171,7 @@ InRect(vp, bx) ==
 
 SafeAllowed(e) ==
   /\ e.panic = 0
+  /\ e.outw = 0                 \* nothing of the parent buffers outside the target window is touched
   /\ e.nan = 0
   /\ InRect(e.vp, e.sbox)
   /\ InRect(e.vp, e.tbox)
